@@ -86,10 +86,14 @@ def replay(case):
     if case.get('mode') == 'ids':
         ls = _build(2, 2, [1, 1, 1, 1], [['a', 'b', 'c'], ['a', 'b', 'c']])
         list(ls[1].lines_iterator())[1].id = 'other'
+        real = mod.get_line_confidence
+        mod.get_line_confidence = lambda line, c_idx: np.array([0.5] * len(c_idx))     # the lines before the mismatching one are merged first
         try:
             mod.merge_layouts(ls)
         except SystemExit:
             return {'reproduced': False, 'detail': 'exit as expected'}
+        finally:
+            mod.get_line_confidence = real
         return {'reproduced': True, 'detail': 'merged layouts with different ids'}
     if case.get('mode') == 'self':
         return {'reproduced': _self(case)[1], 'detail': 'self-merge'}
